@@ -10,45 +10,52 @@ Definition inj (s : stmt) : xstmt :=
 
 (* ---- one step of parse_xstmt per form -------------------------------------------------------------------------------- *)
 
-Lemma xstep_block m w k rest : ty k = tt_OpenBraceToken ->
-  parse_xstmt (S m) w (k :: rest) = ('(l, r) <~ parse_xlist m w rest [] ;; Ok (XBlock l, skip_semi false r)).
+Lemma xstep_block m w ad k rest : ty k = tt_OpenBraceToken ->
+  parse_xstmt (S m) w ad (k :: rest) = ('(l, r) <~ parse_xlist m w rest [] ;; Ok (XBlock l, skip_semi false r)).
 Proof. intros E. cbn [parse_xstmt]. rewrite E. reflexivity. Qed.
 
-Lemma xstep_if m w k rest : ty k = tt_IfToken ->
-  parse_xstmt (S m) w (k :: rest) =
+Lemma xstep_if m w ad k rest : ty k = tt_IfToken ->
+  parse_xstmt (S m) w ad (k :: rest) =
   (r1 <~ expect tt_OpenParenToken rest ;;
    '(c, r2) <~ parse true prec_OpExpr r1 ;;
    r3 <~ expect tt_CloseParenToken r2 ;;
-   '(s, r4) <~ parse_xstmt m w r3 ;;
+   '(s, r4) <~ parse_xstmt m w false r3 ;;
    match r4 with
    | e :: r5 =>
-       if ty e =? tt_ElseToken then '(s2, r6) <~ parse_xstmt m w r5 ;; Ok (XIf c s (Some s2), skip_semi false r6)
+       if ty e =? tt_ElseToken then '(s2, r6) <~ parse_xstmt m w false r5 ;; Ok (XIf c s (Some s2), skip_semi false r6)
        else Ok (XIf c s None, skip_semi false r4)
    | [] => Ok (XIf c s None, [])
    end).
 Proof. intros E. cbn [parse_xstmt]. rewrite E. reflexivity. Qed.
 
-Lemma xstep_while m w k rest : ty k = tt_WhileToken ->
-  parse_xstmt (S m) w (k :: rest) =
+Lemma xstep_while m w ad k rest : ty k = tt_WhileToken ->
+  parse_xstmt (S m) w ad (k :: rest) =
   (r1 <~ expect tt_OpenParenToken rest ;;
    '(c, r2) <~ parse true prec_OpExpr r1 ;;
    r3 <~ expect tt_CloseParenToken r2 ;;
-   '(s, r4) <~ parse_xstmt m w r3 ;;
+   '(s, r4) <~ parse_xstmt m w false r3 ;;
    if w then Ok (XFor FNone (Some c) None (match s with XBlock l => l | _ => [s] end), skip_semi false r4)
    else Ok (XWhile c s, skip_semi false r4)).
 Proof. intros E. cbn [parse_xstmt]. rewrite E. reflexivity. Qed.
 
-Lemma xstep_throw m w k c rest : ty k = tt_ThrowToken -> lt c = false ->
-  parse_xstmt (S m) w (k :: c :: rest) = ('(e, r) <~ parse true prec_OpExpr (c :: rest) ;; Ok (XThrow e, skip_semi true r)).
+Lemma xstep_throw m w ad k c rest : ty k = tt_ThrowToken -> lt c = false ->
+  parse_xstmt (S m) w ad (k :: c :: rest) = ('(e, r) <~ parse true prec_OpExpr (c :: rest) ;; Ok (XThrow e, skip_semi true r)).
 Proof. intros E Hl. cbn [parse_xstmt]. rewrite E. change (tt_ThrowToken =? tt_OpenBraceToken) with false. cbn. rewrite Hl. reflexivity. Qed.
 
-Lemma xstep_var m w k rest : ty k = tt_VarToken ->
-  parse_xstmt (S m) w (k :: rest) =
+Lemma xstep_var m w ad k rest : ty k = tt_VarToken ->
+  parse_xstmt (S m) w ad (k :: rest) =
   ('(l, r) <~ parse_xvar (S (length rest)) true rest [] ;; if stmt_end_ok r then Ok (XVar l, skip_semi true r) else Fail).
 Proof. intros E. cbn [parse_xstmt]. rewrite E. reflexivity. Qed.
 
-Lemma xstep_branch m w k rest : ty k = tt_BreakToken \/ ty k = tt_ContinueToken ->
-  parse_xstmt (S m) w (k :: rest) =
+Lemma xstep_const m w k rest : ty k = tt_ConstToken ->
+  parse_xstmt (S m) w true (k :: rest) =
+  ('(l, r) <~ parse_xvar (S (length rest)) true rest [] ;;
+   if negb (forallb (fun b : list Z * option expr => match snd b with Some _ => true | None => false end) l) then Fail
+   else if stmt_end_ok r then Ok (XLex tt_ConstToken l, skip_semi true r) else Fail).
+Proof. intros E. cbn [parse_xstmt]. rewrite E. reflexivity. Qed.
+
+Lemma xstep_branch m w ad k rest : ty k = tt_BreakToken \/ ty k = tt_ContinueToken ->
+  parse_xstmt (S m) w ad (k :: rest) =
   match rest with
   | c :: r =>
       if negb (lt c) && is_identifier (ty c) then Ok (XBranch (ty k) (Some (data c)), skip_semi true r)
@@ -58,9 +65,9 @@ Lemma xstep_branch m w k rest : ty k = tt_BreakToken \/ ty k = tt_ContinueToken 
   end.
 Proof. intros [E|E]; cbn [parse_xstmt]; rewrite E; reflexivity. Qed.
 
-Lemma xstep_do m w k rest : ty k = tt_DoToken ->
-  parse_xstmt (S m) w (k :: rest) =
-  ('(s, r1) <~ parse_xstmt m w rest ;;
+Lemma xstep_do m w ad k rest : ty k = tt_DoToken ->
+  parse_xstmt (S m) w ad (k :: rest) =
+  ('(s, r1) <~ parse_xstmt m w false rest ;;
    r2 <~ expect tt_WhileToken r1 ;;
    r3 <~ expect tt_OpenParenToken r2 ;;
    '(c, r4) <~ parse true prec_OpExpr r3 ;;
@@ -68,28 +75,38 @@ Lemma xstep_do m w k rest : ty k = tt_DoToken ->
    Ok (XDo s c, skip_semi true r5)).
 Proof. intros E. cbn [parse_xstmt]. rewrite E. reflexivity. Qed.
 
-Lemma xstep_label m w k c rest : label_tok k -> ty c = tt_ColonToken ->
-  parse_xstmt (S m) w (k :: c :: rest) = ('(s, r') <~ parse_xstmt m w rest ;; Ok (XLabel (data k) s, skip_semi false r')).
+Lemma xstep_label m w ad k c rest : label_tok k -> ty c = tt_ColonToken ->
+  parse_xstmt (S m) w ad (k :: c :: rest) = ('(s, r') <~ parse_xstmt m w true rest ;; Ok (XLabel (data k) s, skip_semi false r')).
 Proof.
   intros [Hi [Hl Hk]] Ec. cbn [parse_xstmt].
-  assert (K : forall t, In t [tt_OpenBraceToken; tt_VarToken; tt_IfToken; tt_WhileToken; tt_ForToken; tt_DoToken; tt_DebuggerToken; tt_WithToken; tt_TryToken; tt_SwitchToken; tt_ThrowToken; tt_BreakToken; tt_ContinueToken] ->
+  assert (K : forall t, In t [tt_OpenBraceToken; tt_VarToken; tt_ConstToken; tt_IfToken; tt_WhileToken; tt_ForToken; tt_DoToken; tt_DebuggerToken; tt_WithToken; tt_TryToken; tt_SwitchToken; tt_ThrowToken; tt_BreakToken; tt_ContinueToken] ->
               (ty k =? t) = false).
   { intros t Hin. apply Z.eqb_neq. intros E. rewrite E in Hk. cbn [In] in Hin.
     repeat (destruct Hin as [Hin|Hin]; [subst t; vm_compute in Hk; discriminate|]). contradiction. }
-  rewrite !K by (cbn; tauto). cbn [orb]. rewrite Hk, Hi. apply Z.eqb_neq in Hl. rewrite Hl, Ec, Z.eqb_refl. cbn [negb andb tl]. reflexivity.
+  apply Z.eqb_neq in Hl. rewrite Hl. cbn [andb].
+  rewrite !K by (cbn; tauto). cbn [orb]. rewrite Hk, Hi, Ec, Z.eqb_refl. cbn [negb andb tl]. reflexivity.
 Qed.
 
 (* the statements of Pratt.v pass through *)
-Lemma xstep_base m w ts s rest : ts <> [] ->
+Lemma xstep_base m w ad ts s rest : ts <> [] ->
   parse_stmt (S (length ts)) ts = Ok (s, rest) -> (forall n v, s <> SLabel n v) ->
-  parse_xstmt (S m) w ts = Ok (inj s, rest).
+  parse_xstmt (S m) w ad ts = Ok (inj s, rest).
 Proof.
   intros Hne Hs Hnl. destruct ts as [|k r]; [contradiction|].
-  assert (K : forall t, In t [tt_OpenBraceToken; tt_VarToken; tt_IfToken; tt_WhileToken; tt_ForToken; tt_DoToken; tt_DebuggerToken; tt_WithToken; tt_TryToken; tt_SwitchToken; tt_ThrowToken; tt_BreakToken; tt_ContinueToken] ->
+  assert (K : forall t, In t [tt_OpenBraceToken; tt_VarToken; tt_ConstToken; tt_IfToken; tt_WhileToken; tt_ForToken; tt_DoToken; tt_DebuggerToken; tt_WithToken; tt_TryToken; tt_SwitchToken; tt_ThrowToken; tt_BreakToken; tt_ContinueToken] ->
               (ty k =? t) = false).
   { intros t Hin. apply Z.eqb_neq. intros E. cbn [parse_stmt] in Hs. rewrite E in Hs. cbn [In] in Hin.
     repeat (destruct Hin as [Hin|Hin]; [subst t; vm_compute in Hs; discriminate|]). contradiction. }
-  cbn [parse_xstmt]. rewrite !K by (cbn; tauto). cbn [orb].
+  assert (L : (ty k =? tt_LetToken) && ad &&
+              match r with c :: _ => is_identifier (ty c) || (ty c =? tt_YieldToken) || (ty c =? tt_AwaitToken)
+                                     || (ty c =? tt_OpenBracketToken) || (ty c =? tt_OpenBraceToken) | [] => false end = false).
+  { destruct (ty k =? tt_LetToken) eqn:Elet; [|reflexivity]. destruct ad; [|reflexivity]. cbn [andb].
+    destruct r as [|c r']; [reflexivity|].
+    destruct (is_identifier (ty c) || (ty c =? tt_YieldToken) || (ty c =? tt_AwaitToken) || (ty c =? tt_OpenBracketToken) || (ty c =? tt_OpenBraceToken)) eqn:Eb; [|reflexivity].
+    exfalso. cbn [parse_stmt] in Hs. apply Z.eqb_eq in Elet. rewrite Elet in Hs.
+    change (tt_LetToken =? tt_SemicolonToken) with false in Hs. change (stmt_keyword tt_LetToken) with false in Hs.
+    change (tt_LetToken =? tt_LetToken) with true in Hs. cbv iota in Hs. rewrite Eb in Hs. discriminate. }
+  cbn [parse_xstmt]. rewrite L. rewrite !K by (cbn; tauto). cbn [orb].
   destruct (negb (stmt_keyword (ty k)) && negb (ty k =? tt_LetToken) && is_identifier (ty k) &&
             match r with c :: _ => ty c =? tt_ColonToken | [] => false end) eqn:El.
   - exfalso. apply andb_true_iff in El. destruct El as [El Ec]. apply andb_true_iff in El. destruct El as [El Ei].
@@ -102,31 +119,31 @@ Proof.
   - rewrite Hs. cbn [rbind]. destruct s; cbn [xwrap rbind inj]; try reflexivity. exfalso. eapply Hnl; reflexivity.
 Qed.
 
-Lemma xstep_debugger m w k rest : ty k = tt_DebuggerToken -> parse_xstmt (S m) w (k :: rest) = Ok (XDebugger, skip_semi true rest).
+Lemma xstep_debugger m w ad k rest : ty k = tt_DebuggerToken -> parse_xstmt (S m) w ad (k :: rest) = Ok (XDebugger, skip_semi true rest).
 Proof. intros E. cbn [parse_xstmt]. rewrite E. reflexivity. Qed.
 
-Lemma xstep_with m w k rest : ty k = tt_WithToken ->
-  parse_xstmt (S m) w (k :: rest) =
+Lemma xstep_with m w ad k rest : ty k = tt_WithToken ->
+  parse_xstmt (S m) w ad (k :: rest) =
   (r1 <~ expect tt_OpenParenToken rest ;;
    '(c, r2) <~ parse true prec_OpExpr r1 ;;
    r3 <~ expect tt_CloseParenToken r2 ;;
-   '(s, r4) <~ parse_xstmt m w r3 ;;
+   '(s, r4) <~ parse_xstmt m w false r3 ;;
    Ok (XWith c s, skip_semi false r4)).
 Proof. intros E. cbn [parse_xstmt]. rewrite E. reflexivity. Qed.
 
-Lemma xstep_try m w k rest : ty k = tt_TryToken ->
-  parse_xstmt (S m) w (k :: rest) = try_arm (fun ts' => parse_xlist m w ts' []) rest.
+Lemma xstep_try m w ad k rest : ty k = tt_TryToken ->
+  parse_xstmt (S m) w ad (k :: rest) = try_arm (fun ts' => parse_xlist m w ts' []) rest.
 Proof. intros E. cbn [parse_xstmt]. rewrite E. reflexivity. Qed.
 
-Lemma xstep_switch m w k rest : ty k = tt_SwitchToken ->
-  parse_xstmt (S m) w (k :: rest) = switch_arm (fun ts' => parse_xclauses m w ts' []) rest.
+Lemma xstep_switch m w ad k rest : ty k = tt_SwitchToken ->
+  parse_xstmt (S m) w ad (k :: rest) = switch_arm (fun ts' => parse_xclauses m w ts' []) rest.
 Proof. intros E. cbn [parse_xstmt]. rewrite E. reflexivity. Qed.
 
 Lemma xstep_cstmts_end m w ts acc : ends_clause ts = true -> parse_xcstmts (S m) w ts acc = Ok (rev acc, ts).
 Proof. intros E. cbn [parse_xcstmts]. rewrite E. reflexivity. Qed.
 
 Lemma xstep_cstmts_cons m w ts acc : ends_clause ts = false ->
-  parse_xcstmts (S m) w ts acc = ('(s, r) <~ parse_xstmt m w ts ;; parse_xcstmts m w r (s :: acc)).
+  parse_xcstmts (S m) w ts acc = ('(s, r) <~ parse_xstmt m w true ts ;; parse_xcstmts m w r (s :: acc)).
 Proof. intros E. cbn [parse_xcstmts]. rewrite E. reflexivity. Qed.
 
 Lemma xstep_clauses_end m w k r acc : ty k = tt_CloseBraceToken -> parse_xclauses (S m) w (k :: r) acc = Ok (rev acc, r).
@@ -143,8 +160,8 @@ Lemma xstep_clauses_default m w k r acc : ty k = tt_DefaultToken ->
   (r2 <~ expect tt_ColonToken r ;; '(l, r3) <~ parse_xcstmts m w r2 [] ;; parse_xclauses m w r3 ((None, l) :: acc)).
 Proof. intros E. cbn [parse_xclauses]. rewrite E. reflexivity. Qed.
 
-Lemma xstep_for m w k rest : ty k = tt_ForToken ->
-  parse_xstmt (S m) w (k :: rest) = for_arm (parse_xstmt m w) (fun ts' => parse_xlist m w ts' []) rest.
+Lemma xstep_for m w ad k rest : ty k = tt_ForToken ->
+  parse_xstmt (S m) w ad (k :: rest) = for_arm (parse_xstmt m w false) (fun ts' => parse_xlist m w ts' []) rest.
 Proof. intros E. cbn [parse_xstmt]. rewrite E. reflexivity. Qed.
 
 (* ---- the grammar of the statement fragment ------------------------------------------------------------------------------ *)
@@ -191,6 +208,10 @@ Inductive fopt (t : Z) : list token -> option expr -> list token -> Prop :=
 | FO_none r : first_is t r = true -> fopt t r None r
 | FO_some xs x r : derives true Expression xs x -> first_is t r = true -> fopt t (xs ++ r) (Some x) r.
 
+(* a lexical declaration: allowed in statement lists only, not as the body of if / while / do / for / with *)
+Definition is_decl (s : xstmt) : bool := match s with XLex _ _ => true | _ => false end.
+Definition has_init (b : list Z * option expr) : bool := match snd b with Some _ => true | None => false end.
+
 Inductive xone : list token -> xstmt -> list token -> Prop :=
 | XO_base ts s rest : one ts s rest -> (forall n v, s <> SLabel n v) -> xone ts (inj s) rest
   (* an expression statement before the '}' of a block *)
@@ -204,25 +225,26 @@ Inductive xone : list token -> xstmt -> list token -> Prop :=
   (* if ( Expression ) Statement [else Statement] *)
 | XO_if k lp cs c rp ts s rest :
     ty k = tt_IfToken -> ty lp = tt_OpenParenToken -> derives true Expression cs c -> ty rp = tt_CloseParenToken ->
-    xone ts s rest -> first_is tt_ElseToken rest = false -> no_same_line_semi rest ->
+    xone ts s rest -> first_is tt_ElseToken rest = false -> no_same_line_semi rest -> is_decl s = false ->
     xone (k :: lp :: cs ++ rp :: ts) (XIf c s None) rest
 | XO_if_else k lp cs c rp ts s e ts2 s2 rest :
     ty k = tt_IfToken -> ty lp = tt_OpenParenToken -> derives true Expression cs c -> ty rp = tt_CloseParenToken ->
     xone ts s (e :: ts2) -> ty e = tt_ElseToken -> xone ts2 s2 rest -> no_same_line_semi rest ->
+    is_decl s = false -> is_decl s2 = false ->
     xone (k :: lp :: cs ++ rp :: ts) (XIf c s (Some s2)) rest
   (* while ( Expression ) Statement *)
 | XO_while k lp cs c rp ts s rest :
     ty k = tt_WhileToken -> ty lp = tt_OpenParenToken -> derives true Expression cs c -> ty rp = tt_CloseParenToken ->
-    xone ts s rest -> no_same_line_semi rest ->
+    xone ts s rest -> no_same_line_semi rest -> is_decl s = false ->
     xone (k :: lp :: cs ++ rp :: ts) (XWhile c s) rest
   (* do Statement while ( Expression ) ;   — the ';' on any line, or left out (automatic semicolon insertion after the ')') *)
 | XO_do_semi k ts s w lp cs c rp sc rest :
     ty k = tt_DoToken -> xone ts s (w :: lp :: cs ++ rp :: sc :: rest) -> ty w = tt_WhileToken -> ty lp = tt_OpenParenToken ->
-    derives true Expression cs c -> ty rp = tt_CloseParenToken -> ty sc = tt_SemicolonToken ->
+    derives true Expression cs c -> ty rp = tt_CloseParenToken -> ty sc = tt_SemicolonToken -> is_decl s = false ->
     xone (k :: ts) (XDo s c) rest
 | XO_do_asi k ts s w lp cs c rp rest :
     ty k = tt_DoToken -> xone ts s (w :: lp :: cs ++ rp :: rest) -> ty w = tt_WhileToken -> ty lp = tt_OpenParenToken ->
-    derives true Expression cs c -> ty rp = tt_CloseParenToken -> first_is tt_SemicolonToken rest = false ->
+    derives true Expression cs c -> ty rp = tt_CloseParenToken -> first_is tt_SemicolonToken rest = false -> is_decl s = false ->
     xone (k :: ts) (XDo s c) rest
   (* throw [no LineTerminator here] Expression ; *)
 | XO_throw k xs x r rest :
@@ -252,14 +274,20 @@ Inductive xone : list token -> xstmt -> list token -> Prop :=
 | XO_for_stmt k lp ti i s1 tc c s2 tp p rp tb s rest :
     ty k = tt_ForToken -> ty lp = tt_OpenParenToken -> finit ti i (s1 :: tc) -> fopt tt_SemicolonToken tc c (s2 :: tp) ->
     fopt tt_CloseParenToken tp p (rp :: tb) -> first_is tt_OpenBraceToken tb = false -> first_is tt_SemicolonToken tb = false ->
-    xone tb s rest -> no_same_line_semi rest ->
+    xone tb s rest -> no_same_line_semi rest -> is_decl s = false ->
     xone (k :: lp :: ti) (XFor i c p [s]) rest
+  (* let / const BindingIdentifier [= AssignmentExpression] , ... ;   (const: every binding initialised) *)
+| XO_let k ts l r rest :
+    ty k = tt_LetToken -> xvars true ts l r -> term false r rest -> xone (k :: ts) (XLex tt_LetToken l) rest
+| XO_const k ts l r rest :
+    ty k = tt_ConstToken -> xvars true ts l r -> forallb has_init l = true -> term false r rest ->
+    xone (k :: ts) (XLex tt_ConstToken l) rest
   (* debugger ; *)
 | XO_debugger k r rest : ty k = tt_DebuggerToken -> term false r rest -> xone (k :: r) XDebugger rest
   (* with ( Expression ) Statement *)
 | XO_with k lp cs c rp ts s rest :
     ty k = tt_WithToken -> ty lp = tt_OpenParenToken -> derives true Expression cs c -> ty rp = tt_CloseParenToken ->
-    xone ts s rest -> no_same_line_semi rest ->
+    xone ts s rest -> no_same_line_semi rest -> is_decl s = false ->
     xone (k :: lp :: cs ++ rp :: ts) (XWith c s) rest
   (* try Block Catch | try Block Finally | try Block Catch Finally;  Catch : catch [ ( BindingIdentifier ) ] Block *)
 | XO_try k ko tb b r2 c r3 f rest :
@@ -427,6 +455,14 @@ Proof.
     rewrite IH by lia. cbn [rev]. rewrite <- app_assoc. reflexivity.
 Qed.
 
+Lemma xstep_let m w k ts l r : ty k = tt_LetToken -> xvars true ts l r ->
+  parse_xstmt (S m) w true (k :: ts) =
+  ('(l, r) <~ parse_xvar (S (length ts)) true ts [] ;; if stmt_end_ok r then Ok (XLex tt_LetToken l, skip_semi true r) else Fail).
+Proof.
+  intros E Hv. assert (H : exists c ts', ts = c :: ts' /\ is_identifier (ty c) = true) by (inversion Hv; eauto).
+  destruct H as [c [ts' [Et Hi]]]. subst ts. cbn [parse_xstmt]. rewrite E, Hi. reflexivity.
+Qed.
+
 Lemma first_is_true t r : first_is t r = true -> exists k r', r = k :: r' /\ ty k = t.
 Proof. destruct r as [|k r']; [discriminate|]. cbn [first_is]. intros H. apply Z.eqb_eq in H. eauto. Qed.
 
@@ -497,7 +533,8 @@ Proof. intros H. inversion H; subst. reflexivity. Qed.
 Lemma xfin_some r f rest : xfin r f rest -> f <> None -> first_is tt_FinallyToken r = true.
 Proof. intros H Hn. inversion H; subst; [contradiction|]. cbn [first_is]. apply Z.eqb_eq. assumption. Qed.
 
-Definition PX w ts s rest := (length rest < length ts)%nat /\ forall m, (length ts - length rest <= m)%nat -> parse_xstmt (S m) w ts = Ok (tw w s, rest).
+Definition PX w ts s rest := (length rest < length ts)%nat /\
+  forall m ad, (length ts - length rest <= m)%nat -> (is_decl s = true -> ad = true) -> parse_xstmt (S m) w ad ts = Ok (tw w s, rest).
 Definition PL w ts l rest := (length rest < length ts)%nat /\
   forall m acc, (length ts - length rest <= m)%nat -> parse_xlist (S m) w ts acc = Ok (rev acc ++ map (tw w) l, rest).
 Definition PC w ts (c : option (option (list Z) * list xstmt)) rest := (length rest <= length ts)%nat /\
@@ -525,92 +562,92 @@ Proof.
            (fun ts c rest _ => PC w ts c rest) (fun ts f rest _ => PF w ts f rest)
            (fun ts cl rest _ => PK w ts cl rest) (fun ts l rest _ => PS w ts l rest)); unfold PX, PL, PC, PF, PK, PS.
   - (* base *)
-    intros ts s rest Ho Hnl. destruct (one_stmt _ _ _ Ho) as [Hl Hs]. split; [exact Hl|]. intros m _.
+    intros ts s rest Ho Hnl. destruct (one_stmt _ _ _ Ho) as [Hl Hs]. split; [exact Hl|]. intros m ad _ Had.
     rewrite (tw_inj _ _ Hnl).
     apply xstep_base; [destruct ts; [cbn in Hl; lia|discriminate]|apply Hs; lia|exact Hnl].
   - (* expression statement before '}' *)
     intros xs x c rest [d Hlet] Hc. pose proof (derives_nonempty _ _ _ _ d) as Hl.
-    split; [rewrite app_length; cbn [length]; lia|]. intros m _.
-    apply (xstep_base m w (xs ++ c :: rest) (SExpr x) (c :: rest)).
+    split; [rewrite app_length; cbn [length]; lia|]. intros m ad _ Had.
+    apply (xstep_base m w ad (xs ++ c :: rest) (SExpr x) (c :: rest)).
     + destruct xs; [cbn in Hl; lia|discriminate].
     + apply stmt_ends_at_brace; assumption.
     + intros; discriminate.
   - (* label *)
-    intros k c ts s rest Hk Hc Hone [IHl IH] Hsl. split; [cbn [length]; lia|]. intros m Hm.
-    rewrite (xstep_label _ _ _ _ _ Hk Hc). cbn [length] in Hm. destruct m as [|m']; [lia|].
-    rewrite IH by lia. cbn [rbind tw]. rewrite (skip_same_line _ Hsl). reflexivity.
+    intros k c ts s rest Hk Hc Hone [IHl IH] Hsl. split; [cbn [length]; lia|]. intros m ad Hm Had.
+    rewrite (xstep_label _ _ _ _ _ _ Hk Hc). cbn [length] in Hm. destruct m as [|m']; [lia|].
+    rewrite (IH _ true); [|lia|intros _; reflexivity]. cbn [rbind tw]. rewrite (skip_same_line _ Hsl). reflexivity.
   - (* block *)
-    intros ko ts l rest Hko Hlist [IHl IH] Hsl. split; [cbn [length]; lia|]. intros m Hm.
-    rewrite (xstep_block _ _ _ _ Hko). cbn [length] in Hm. destruct m as [|m']; [lia|].
+    intros ko ts l rest Hko Hlist [IHl IH] Hsl. split; [cbn [length]; lia|]. intros m ad Hm Had.
+    rewrite (xstep_block _ _ _ _ _ Hko). cbn [length] in Hm. destruct m as [|m']; [lia|].
     rewrite (IH m' []) by lia. cbn [rbind rev app tw]. rewrite (skip_same_line _ Hsl). reflexivity.
   - (* if *)
-    intros k lp cs c rp ts s rest Hk Hlp d Hrp Hone [IHl IH] Helse Hsl.
-    split; [cbn [length]; rewrite app_length; cbn [length]; lia|]. intros m Hm.
-    rewrite (xstep_if _ _ _ _ Hk). rewrite (expect_ok_tok _ _ _ Hlp). cbn [rbind].
+    intros k lp cs c rp ts s rest Hk Hlp d Hrp Hone [IHl IH] Helse Hsl Hns.
+    split; [cbn [length]; rewrite app_length; cbn [length]; lia|]. intros m ad Hm Had.
+    rewrite (xstep_if _ _ _ _ _ Hk). rewrite (expect_ok_tok _ _ _ Hlp). cbn [rbind].
     rewrite (cond_parse _ _ _ _ d Hrp). cbn [rbind]. rewrite (expect_ok_tok _ _ _ Hrp). cbn [rbind].
     cbn [length] in Hm. rewrite app_length in Hm. cbn [length] in Hm. destruct m as [|m']; [lia|].
-    rewrite IH by lia. cbn [rbind tw option_map].
+    rewrite (IH _ false); [|lia|intros Hd; rewrite Hns in Hd; discriminate]. cbn [rbind tw option_map].
     destruct rest as [|e r5]; [reflexivity|]. cbn [first_is] in Helse. rewrite Helse. rewrite (skip_same_line _ Hsl). reflexivity.
   - (* if else *)
-    intros k lp cs c rp ts s e ts2 s2 rest Hk Hlp d Hrp Hone [IHl IH] He Hone2 [IHl2 IH2] Hsl.
+    intros k lp cs c rp ts s e ts2 s2 rest Hk Hlp d Hrp Hone [IHl IH] He Hone2 [IHl2 IH2] Hsl Hns Hns2.
     cbn [length] in IHl.
-    split; [cbn [length]; rewrite app_length; cbn [length]; lia|]. intros m Hm.
-    rewrite (xstep_if _ _ _ _ Hk). rewrite (expect_ok_tok _ _ _ Hlp). cbn [rbind].
+    split; [cbn [length]; rewrite app_length; cbn [length]; lia|]. intros m ad Hm Had.
+    rewrite (xstep_if _ _ _ _ _ Hk). rewrite (expect_ok_tok _ _ _ Hlp). cbn [rbind].
     rewrite (cond_parse _ _ _ _ d Hrp). cbn [rbind]. rewrite (expect_ok_tok _ _ _ Hrp). cbn [rbind].
     cbn [length] in Hm. rewrite app_length in Hm. cbn [length] in Hm. destruct m as [|m']; [lia|].
-    rewrite IH by (cbn [length]; lia). cbn [rbind]. rewrite He, Z.eqb_refl.
-    rewrite IH2 by lia. cbn [rbind tw option_map]. rewrite (skip_same_line _ Hsl). reflexivity.
+    rewrite (IH _ false); [|cbn [length]; lia|intros Hd; rewrite Hns in Hd; discriminate]. cbn [rbind]. rewrite He, Z.eqb_refl.
+    rewrite (IH2 _ false); [|lia|intros Hd; rewrite Hns2 in Hd; discriminate]. cbn [rbind tw option_map]. rewrite (skip_same_line _ Hsl). reflexivity.
   - (* while *)
-    intros k lp cs c rp ts s rest Hk Hlp d Hrp Hone [IHl IH] Hsl.
-    split; [cbn [length]; rewrite app_length; cbn [length]; lia|]. intros m Hm.
-    rewrite (xstep_while _ _ _ _ Hk). rewrite (expect_ok_tok _ _ _ Hlp). cbn [rbind].
+    intros k lp cs c rp ts s rest Hk Hlp d Hrp Hone [IHl IH] Hsl Hns.
+    split; [cbn [length]; rewrite app_length; cbn [length]; lia|]. intros m ad Hm Had.
+    rewrite (xstep_while _ _ _ _ _ Hk). rewrite (expect_ok_tok _ _ _ Hlp). cbn [rbind].
     rewrite (cond_parse _ _ _ _ d Hrp). cbn [rbind]. rewrite (expect_ok_tok _ _ _ Hrp). cbn [rbind].
     cbn [length] in Hm. rewrite app_length in Hm. cbn [length] in Hm. destruct m as [|m']; [lia|].
-    rewrite IH by lia. cbn [rbind tw]. rewrite (skip_same_line _ Hsl). destruct w; [|reflexivity]. destruct (tw true s); reflexivity.
+    rewrite (IH _ false); [|lia|intros Hd; rewrite Hns in Hd; discriminate]. cbn [rbind tw]. rewrite (skip_same_line _ Hsl). destruct w; [|reflexivity]. destruct (tw true s); reflexivity.
   - (* do ... while ( ) ; *)
-    intros k ts s wk lp cs c rp sc rest Hk Hone [IHl IH] Hw Hlp d Hrp Hsc.
+    intros k ts s wk lp cs c rp sc rest Hk Hone [IHl IH] Hw Hlp d Hrp Hsc Hns.
     cbn [length] in IHl. rewrite app_length in IHl. cbn [length] in IHl.
-    split; [cbn [length]; lia|]. intros m Hm.
-    rewrite (xstep_do _ _ _ _ Hk). cbn [length] in Hm. destruct m as [|m']; [lia|].
-    rewrite IH by (cbn [length]; rewrite app_length; cbn [length]; lia). cbn [rbind].
+    split; [cbn [length]; lia|]. intros m ad Hm Had.
+    rewrite (xstep_do _ _ _ _ _ Hk). cbn [length] in Hm. destruct m as [|m']; [lia|].
+    rewrite (IH _ false); [|cbn [length]; rewrite app_length; cbn [length]; lia|intros Hd; rewrite Hns in Hd; discriminate]. cbn [rbind].
     rewrite (expect_ok_tok _ _ _ Hw). cbn [rbind]. rewrite (expect_ok_tok _ _ _ Hlp). cbn [rbind].
     rewrite (cond_parse _ _ _ _ d Hrp). cbn [rbind]. rewrite (expect_ok_tok _ _ _ Hrp). cbn [rbind tw].
     rewrite (skip_true_semi _ _ Hsc). reflexivity.
   - (* do ... while ( )  without ';' *)
-    intros k ts s wk lp cs c rp rest Hk Hone [IHl IH] Hw Hlp d Hrp Hns.
+    intros k ts s wk lp cs c rp rest Hk Hone [IHl IH] Hw Hlp d Hrp Hnsm Hns.
     cbn [length] in IHl. rewrite app_length in IHl. cbn [length] in IHl.
-    split; [cbn [length]; lia|]. intros m Hm.
-    rewrite (xstep_do _ _ _ _ Hk). cbn [length] in Hm. destruct m as [|m']; [lia|].
-    rewrite IH by (cbn [length]; rewrite app_length; cbn [length]; lia). cbn [rbind].
+    split; [cbn [length]; lia|]. intros m ad Hm Had.
+    rewrite (xstep_do _ _ _ _ _ Hk). cbn [length] in Hm. destruct m as [|m']; [lia|].
+    rewrite (IH _ false); [|cbn [length]; rewrite app_length; cbn [length]; lia|intros Hd; rewrite Hns in Hd; discriminate]. cbn [rbind].
     rewrite (expect_ok_tok _ _ _ Hw). cbn [rbind]. rewrite (expect_ok_tok _ _ _ Hlp). cbn [rbind].
     rewrite (cond_parse _ _ _ _ d Hrp). cbn [rbind]. rewrite (expect_ok_tok _ _ _ Hrp). cbn [rbind tw].
-    rewrite (skip_true_none _ Hns). reflexivity.
+    rewrite (skip_true_none _ Hnsm). reflexivity.
   - (* throw *)
     intros k xs x r rest Hk d Hlt Ht. destruct (term_ok _ _ _ Ht) as [Hsk [_ [Hn Hl]]].
     destruct (expression_then _ _ _ _ d (Hn eq_refl)) as [Hp [k0 [xs' [E _]]]]. subst xs.
-    split; [cbn [length app]; rewrite app_length; lia|]. intros m _. cbn [app] in *.
-    rewrite (xstep_throw _ _ _ _ _ Hk (Hlt _ _ eq_refl)). rewrite Hp. cbn [rbind tw]. rewrite Hsk. reflexivity.
+    split; [cbn [length app]; rewrite app_length; lia|]. intros m ad _ Had. cbn [app] in *.
+    rewrite (xstep_throw _ _ _ _ _ _ Hk (Hlt _ _ eq_refl)). rewrite Hp. cbn [rbind tw]. rewrite Hsk. reflexivity.
   - (* break / continue *)
     intros k r rest Hk Hnl Ht. destruct (term_ok _ _ _ Ht) as [Hsk [_ [_ Hl]]].
-    split; [cbn [length]; lia|]. intros m _. rewrite (xstep_branch _ _ _ _ Hk). cbn [tw].
+    split; [cbn [length]; lia|]. intros m ad _ Had. rewrite (xstep_branch _ _ _ _ _ Hk). cbn [tw].
     destruct r as [|c r']; [inversion Ht; reflexivity|].
     destruct (Hnl c r' eq_refl) as [H|[H1 [H2 H3]]].
     + rewrite H. cbn [negb andb]. rewrite Hsk. reflexivity.
     + rewrite H1. apply Z.eqb_neq in H2. apply Z.eqb_neq in H3. rewrite H2, H3. rewrite !andb_false_r. rewrite Hsk. reflexivity.
   - (* break / continue label *)
     intros k c r rest Hk Hlt Hi Ht. destruct (term_ok _ _ _ Ht) as [Hsk [_ [_ Hl]]].
-    split; [cbn [length]; lia|]. intros m _. rewrite (xstep_branch _ _ _ _ Hk). cbn [tw].
+    split; [cbn [length]; lia|]. intros m ad _ Had. rewrite (xstep_branch _ _ _ _ _ Hk). cbn [tw].
     rewrite Hlt, Hi. cbn [negb andb]. rewrite Hsk. reflexivity.
   - (* var *)
     intros k ts l r rest Hk Hv Ht. destruct (term_ok _ _ _ Ht) as [Hsk [Hend [_ Hl]]].
     destruct (xvars_ok _ _ _ _ Hv) as [Hlv Hp].
-    split; [cbn [length]; lia|]. intros m _. rewrite (xstep_var _ _ _ _ Hk).
+    split; [cbn [length]; lia|]. intros m ad _ Had. rewrite (xstep_var _ _ _ _ _ Hk).
     rewrite (Hp (length ts) []) by lia. cbn [rbind rev app tw]. rewrite Hend, Hsk. reflexivity.
   - (* for ... { } *)
     intros k lp ti i s1 tc c s2 tp p rp ko tb l rest Hk Hlp Hfi Hc Hp Hko Hlist [IHl IH] Hsl.
     for_head Hk Hlp Hfi Hc Hp. cbn [length] in *.
-    split; [lia|]. intros m Hm.
-    rewrite (xstep_for _ _ _ _ Hk). unfold for_arm. rewrite (expect_ok_tok _ _ _ Hlp). cbn [rbind].
+    split; [lia|]. intros m ad Hm Had.
+    rewrite (xstep_for _ _ _ _ _ Hk). unfold for_arm. rewrite (expect_ok_tok _ _ _ Hlp). cbn [rbind].
     rewrite Ei. cbn [rbind].
     pose proof (finit_semi _ _ _ _ Hfi) as Hs1.
     pose proof (fopt_first _ _ _ _ _ Hc) as Hs2.
@@ -621,8 +658,8 @@ Proof.
   - (* for ... ; *)
     intros k lp ti i s1 tc c s2 tp p rp sc rest Hk Hlp Hfi Hc Hp Hsc Hsl.
     for_head Hk Hlp Hfi Hc Hp. cbn [length] in *.
-    split; [lia|]. intros m Hm.
-    rewrite (xstep_for _ _ _ _ Hk). unfold for_arm. rewrite (expect_ok_tok _ _ _ Hlp). cbn [rbind].
+    split; [lia|]. intros m ad Hm Had.
+    rewrite (xstep_for _ _ _ _ _ Hk). unfold for_arm. rewrite (expect_ok_tok _ _ _ Hlp). cbn [rbind].
     rewrite Ei. cbn [rbind].
     pose proof (finit_semi _ _ _ _ Hfi) as Hs1.
     pose proof (fopt_first _ _ _ _ _ Hc) as Hs2.
@@ -631,10 +668,10 @@ Proof.
     rewrite Ep. cbn [rbind]. rewrite (expect_ok_tok _ _ _ Hrp). cbn [rbind]. rewrite Hsc.
     change (tt_SemicolonToken =? tt_OpenBraceToken) with false. rewrite Z.eqb_refl. cbn [rbind tw map]. rewrite (skip_same_line _ Hsl). reflexivity.
   - (* for ... statement *)
-    intros k lp ti i s1 tc c s2 tp p rp tb s rest Hk Hlp Hfi Hc Hp Hnb Hns Hone [IHl IH] Hsl.
+    intros k lp ti i s1 tc c s2 tp p rp tb s rest Hk Hlp Hfi Hc Hp Hnb Hnsc Hone [IHl IH] Hsl Hns.
     for_head Hk Hlp Hfi Hc Hp. cbn [length] in *.
-    split; [lia|]. intros m Hm.
-    rewrite (xstep_for _ _ _ _ Hk). unfold for_arm. rewrite (expect_ok_tok _ _ _ Hlp). cbn [rbind].
+    split; [lia|]. intros m ad Hm Had.
+    rewrite (xstep_for _ _ _ _ _ Hk). unfold for_arm. rewrite (expect_ok_tok _ _ _ Hlp). cbn [rbind].
     rewrite Ei. cbn [rbind].
     pose proof (finit_semi _ _ _ _ Hfi) as Hs1.
     pose proof (fopt_first _ _ _ _ _ Hc) as Hs2.
@@ -642,30 +679,40 @@ Proof.
     rewrite (expect_ok_tok _ _ _ Hs1). cbn [rbind]. rewrite Ec. cbn [rbind]. rewrite (expect_ok_tok _ _ _ Hs2). cbn [rbind].
     rewrite Ep. cbn [rbind]. rewrite (expect_ok_tok _ _ _ Hrp). cbn [rbind].
     destruct m as [|m']; [lia|].
-    destruct tb as [|a ra]; [cbn [length] in IHl; lia|]. cbn [first_is] in Hnb, Hns. rewrite Hnb, Hns.
-    rewrite IH by lia. cbn [rbind tw map]. rewrite (skip_same_line _ Hsl). reflexivity.
+    destruct tb as [|a ra]; [cbn [length] in IHl; lia|]. cbn [first_is] in Hnb, Hnsc. rewrite Hnb, Hnsc.
+    rewrite (IH _ false); [|lia|intros Hd; rewrite Hns in Hd; discriminate]. cbn [rbind tw map]. rewrite (skip_same_line _ Hsl). reflexivity.
+  - (* let *)
+    intros k ts l r rest Hk Hv Ht. destruct (term_ok _ _ _ Ht) as [Hsk [Hend [_ Hl]]].
+    destruct (xvars_ok _ _ _ _ Hv) as [Hlv Hp].
+    split; [cbn [length]; lia|]. intros m ad _ Had. rewrite (Had eq_refl). rewrite (xstep_let _ _ _ _ _ _ Hk Hv).
+    rewrite (Hp (length ts) []) by lia. cbn [rbind rev app tw]. rewrite Hend, Hsk. reflexivity.
+  - (* const *)
+    intros k ts l r rest Hk Hv Hin Ht. destruct (term_ok _ _ _ Ht) as [Hsk [Hend [_ Hl]]].
+    destruct (xvars_ok _ _ _ _ Hv) as [Hlv Hp].
+    split; [cbn [length]; lia|]. intros m ad _ Had. rewrite (Had eq_refl). rewrite (xstep_const _ _ _ _ Hk).
+    rewrite (Hp (length ts) []) by lia. cbn [rbind rev app tw]. unfold has_init in Hin. rewrite Hin. cbn [negb]. rewrite Hend, Hsk. reflexivity.
   - (* debugger *)
     intros k r rest Hk Ht. destruct (term_ok _ _ _ Ht) as [Hsk [_ [_ Hl]]].
-    split; [cbn [length]; lia|]. intros m _. rewrite (xstep_debugger _ _ _ _ Hk). cbn [tw]. rewrite Hsk. reflexivity.
+    split; [cbn [length]; lia|]. intros m ad _ Had. rewrite (xstep_debugger _ _ _ _ _ Hk). cbn [tw]. rewrite Hsk. reflexivity.
   - (* with *)
-    intros k lp cs c rp ts s rest Hk Hlp d Hrp Hone [IHl IH] Hsl.
-    split; [cbn [length]; rewrite app_length; cbn [length]; lia|]. intros m Hm.
-    rewrite (xstep_with _ _ _ _ Hk). rewrite (expect_ok_tok _ _ _ Hlp). cbn [rbind].
+    intros k lp cs c rp ts s rest Hk Hlp d Hrp Hone [IHl IH] Hsl Hns.
+    split; [cbn [length]; rewrite app_length; cbn [length]; lia|]. intros m ad Hm Had.
+    rewrite (xstep_with _ _ _ _ _ Hk). rewrite (expect_ok_tok _ _ _ Hlp). cbn [rbind].
     rewrite (cond_parse _ _ _ _ d Hrp). cbn [rbind]. rewrite (expect_ok_tok _ _ _ Hrp). cbn [rbind].
     cbn [length] in Hm. rewrite app_length in Hm. cbn [length] in Hm. destruct m as [|m']; [lia|].
-    rewrite IH by lia. cbn [rbind tw]. rewrite (skip_same_line _ Hsl). reflexivity.
+    rewrite (IH _ false); [|lia|intros Hd; rewrite Hns in Hd; discriminate]. cbn [rbind tw]. rewrite (skip_same_line _ Hsl). reflexivity.
   - (* try *)
     intros k ko tb b r2 c r3 f rest Hk Hko Hlb [IHlb IHb] Hc [IHlc IHc] Hf [IHlf IHf] Hne Hsl.
-    split; [cbn [length]; lia|]. intros m Hm. cbn [length] in Hm.
-    rewrite (xstep_try _ _ _ _ Hk). unfold try_arm. rewrite (expect_ok_tok _ _ _ Hko). cbn [rbind]. cbv beta.
+    split; [cbn [length]; lia|]. intros m ad Hm Had. cbn [length] in Hm.
+    rewrite (xstep_try _ _ _ _ _ Hk). unfold try_arm. rewrite (expect_ok_tok _ _ _ Hko). cbn [rbind]. cbv beta.
     destruct m as [|m']; [lia|]. rewrite (IHb m' []) by lia. cbn [rbind rev app].
     rewrite IHc; [|lia|].
     + cbn [rbind]. rewrite IHf by lia. cbn [rbind tw]. rewrite (skip_same_line _ Hsl). reflexivity.
     + intros Ec. subst c. rewrite (xcatch_none _ _ Hc) in Hf. apply (xfin_some _ _ _ Hf). destruct Hne as [H|H]; [contradiction|exact H].
   - (* switch *)
     intros k lp cs c rp ko ts cl rest Hk Hlp d Hrp Hko Hcl [IHl IH] Hsl.
-    split; [cbn [length]; rewrite app_length; cbn [length]; lia|]. intros m Hm.
-    rewrite (xstep_switch _ _ _ _ Hk). unfold switch_arm. rewrite (expect_ok_tok _ _ _ Hlp). cbn [rbind].
+    split; [cbn [length]; rewrite app_length; cbn [length]; lia|]. intros m ad Hm Had.
+    rewrite (xstep_switch _ _ _ _ _ Hk). unfold switch_arm. rewrite (expect_ok_tok _ _ _ Hlp). cbn [rbind].
     rewrite (cond_parse _ _ _ _ d Hrp). cbn [rbind]. rewrite (expect_ok_tok _ _ _ Hrp). cbn [rbind].
     rewrite (expect_ok_tok _ _ _ Hko). cbn [rbind]. cbv beta.
     cbn [length] in Hm. rewrite app_length in Hm. cbn [length] in Hm.
@@ -677,7 +724,7 @@ Proof.
     intros ts s r l rest Hf Hone [IHl IH] Hlist [IHll IHL]. split; [lia|]. intros m acc Hm.
     destruct ts as [|k ts']; [cbn [length] in IHl; lia|]. cbn [first_is] in Hf.
     cbn [parse_xlist]. rewrite Hf. destruct m as [|m']; [lia|].
-    rewrite IH by lia. cbn [rbind]. rewrite IHL by lia. cbn [rev map]. rewrite <- app_assoc. reflexivity.
+    rewrite (IH _ true); [|lia|intros _; reflexivity]. cbn [rbind]. rewrite IHL by lia. cbn [rev map]. rewrite <- app_assoc. reflexivity.
   - (* no catch *)
     intros r Hf. split; [lia|]. intros m _ Hn. specialize (Hn eq_refl).
     destruct (first_is_true _ _ Hn) as [kf [r' [E Hk]]]. subst r. cbn [first_is] in Hf. cbn [try_catch]. rewrite Hf.
@@ -718,7 +765,7 @@ Proof.
     intros r Hne He. split; [lia|]. intros m acc _. rewrite (xstep_cstmts_end _ _ _ _ He). cbn [map]. rewrite app_nil_r. reflexivity.
   - (* one more statement of the clause *)
     intros ts s r l rest He Hone [IHl IH] Hcs [IHll IHL]. split; [lia|]. intros m acc Hm.
-    rewrite (xstep_cstmts_cons _ _ _ _ He). rewrite IH by lia. cbn [rbind].
+    rewrite (xstep_cstmts_cons _ _ _ _ He). rewrite (IH _ true); [|lia|intros _; reflexivity]. cbn [rbind].
     destruct m as [|m']; [lia|]. rewrite IHL by lia. cbn [rev map]. rewrite <- app_assoc. reflexivity.
 Qed.
 
@@ -729,7 +776,7 @@ Proof.
   - cbn. rewrite app_nil_r. reflexivity.
   - destruct (proj1 (x_all w) _ _ _ Hone) as [Hl Hs].
     destruct ts as [|k ts']; [cbn [length] in Hl; lia|].
-    cbn [parse_xmodule]. rewrite (Hs (length (k :: ts'))) by lia. cbn [rbind].
+    cbn [parse_xmodule]. rewrite (Hs (length (k :: ts')) true); [|lia|intros _; reflexivity]. cbn [rbind].
     destruct m as [|m']; [cbn [length] in Hm; lia|].
     rewrite IH by lia. cbn [rev map]. rewrite <- app_assoc. reflexivity.
 Qed.
@@ -772,7 +819,7 @@ Proof. intros ts l H. unfold parse_xprogram. rewrite (xprog_module true _ _ H) b
      for ( i = a ; i ; i ++ ) { if ( b ) break ; else continue l ; }
      do a ; while ( b )
      l : while ( a ) throw b ; { } debugger ; with ( a ) b ; try { } catch ( e ) { } finally { }
-     switch ( a ) { case b : a ; default : break ; } a = b                                                                                     *)
+     switch ( a ) { case b : a ; default : break ; } let c = a ; const b = a ; a = b                                                                                     *)
 
 Definition kw (t : Z) : token := mkTok t false (tok_bytes t).
 Definition idi : token := idt 105.
@@ -796,8 +843,10 @@ Definition x_s9 : list token :=
 Definition x_s10 : list token :=
   [kw tt_SwitchToken; kw tt_OpenParenToken; ida; kw tt_CloseParenToken; kw tt_OpenBraceToken; kw tt_CaseToken; idb; colon; ida; sm;
    kw tt_DefaultToken; colon; kw tt_BreakToken; sm; kw tt_CloseBraceToken].
+Definition x_s11 : list token := [kw tt_LetToken; idc; kw tt_EqToken; ida; sm].
+Definition x_s12 : list token := [kw tt_ConstToken; idb; kw tt_EqToken; ida; sm].
 Definition x_s6 : list token := [ida; kw tt_EqToken; idb].
-Definition x_tokens : list token := x_s1 ++ x_s2 ++ x_s3 ++ x_s4 ++ x_s5 ++ x_s7 ++ x_s8 ++ x_s9 ++ x_s10 ++ x_s6.
+Definition x_tokens : list token := x_s1 ++ x_s2 ++ x_s3 ++ x_s4 ++ x_s5 ++ x_s7 ++ x_s8 ++ x_s9 ++ x_s10 ++ x_s11 ++ x_s12 ++ x_s6.
 
 Definition vi : expr := EVar [105].
 Definition x_stmts : list xstmt :=
@@ -811,6 +860,8 @@ Definition x_stmts : list xstmt :=
     XWith va (XExpr vb);
     XTry [] (Some (Some [101], [])) (Some []);
     XSwitch va [(Some vb, [XExpr va]); (None, [XBranch tt_BreakToken None])];
+    XLex tt_LetToken [([99], Some va)];
+    XLex tt_ConstToken [([98], Some va)];
     XExpr (EBinary tt_EqToken va vb) ].
 
 Example x_example : parse_xprogram false x_tokens = Ok x_stmts.
@@ -829,49 +880,49 @@ Example x_example_derivable : xprog x_tokens x_stmts.
 Proof.
   unfold x_tokens, x_stmts.
   (* var i = a , b ; *)
-  apply (XP_cons _ _ (x_s2 ++ x_s3 ++ x_s4 ++ x_s5 ++ x_s7 ++ x_s8 ++ x_s9 ++ x_s10 ++ x_s6)).
-  { apply (XO_var (kw tt_VarToken) _ _ (sm :: x_s2 ++ x_s3 ++ x_s4 ++ x_s5 ++ x_s7 ++ x_s8 ++ x_s9 ++ x_s10 ++ x_s6)); [reflexivity| |apply T_semi; reflexivity].
+  apply (XP_cons _ _ (x_s2 ++ x_s3 ++ x_s4 ++ x_s5 ++ x_s7 ++ x_s8 ++ x_s9 ++ x_s10 ++ x_s11 ++ x_s12 ++ x_s6)).
+  { apply (XO_var (kw tt_VarToken) _ _ (sm :: x_s2 ++ x_s3 ++ x_s4 ++ x_s5 ++ x_s7 ++ x_s8 ++ x_s9 ++ x_s10 ++ x_s11 ++ x_s12 ++ x_s6)); [reflexivity| |apply T_semi; reflexivity].
     apply (V_more_init true idi (kw tt_EqToken) [ida] va (kw tt_CommaToken)); [reflexivity|reflexivity|apply dA_ident|reflexivity|].
     apply V_one; reflexivity. }
   (* for ( i = a ; i ; i ++ ) { if ( b ) break ; else continue l ; } *)
-  apply (XP_cons _ _ (x_s3 ++ x_s4 ++ x_s5 ++ x_s7 ++ x_s8 ++ x_s9 ++ x_s10 ++ x_s6)).
+  apply (XP_cons _ _ (x_s3 ++ x_s4 ++ x_s5 ++ x_s7 ++ x_s8 ++ x_s9 ++ x_s10 ++ x_s11 ++ x_s12 ++ x_s6)).
   { eapply (XO_for_block (kw tt_ForToken) (kw tt_OpenParenToken) _ _ sm _ _ sm _ _ (kw tt_CloseParenToken) (kw tt_OpenBraceToken)); try reflexivity.
     - apply (FI_expr [idi; kw tt_EqToken; ida] _ (sm :: _)); [apply dE; vm_compute; reflexivity|reflexivity|reflexivity].
     - apply (FO_some tt_SemicolonToken [idi] _ (sm :: _)); [apply dE; vm_compute; reflexivity|reflexivity].
     - apply (FO_some tt_CloseParenToken [idi; kw tt_IncrToken] _ (kw tt_CloseParenToken :: _)); [apply dE; vm_compute; reflexivity|reflexivity].
-    - apply (XL_cons _ _ (kw tt_CloseBraceToken :: x_s3 ++ x_s4 ++ x_s5 ++ x_s7 ++ x_s8 ++ x_s9 ++ x_s10 ++ x_s6)); [reflexivity| |apply XL_end; reflexivity].
+    - apply (XL_cons _ _ (kw tt_CloseBraceToken :: x_s3 ++ x_s4 ++ x_s5 ++ x_s7 ++ x_s8 ++ x_s9 ++ x_s10 ++ x_s11 ++ x_s12 ++ x_s6)); [reflexivity| |apply XL_end; reflexivity].
       eapply (XO_if_else (kw tt_IfToken) (kw tt_OpenParenToken) [idb] vb (kw tt_CloseParenToken) _ _ (kw tt_ElseToken)); try reflexivity.
       + apply dE. vm_compute. reflexivity.
       + apply (XO_branch (kw tt_BreakToken) (sm :: _)); [left; reflexivity| |apply T_semi; reflexivity].
         intros c r' E. inversion E; subst. right. repeat split; vm_compute; discriminate.
       + apply (XO_branch_label (kw tt_ContinueToken) idl0 (sm :: _)); [right; reflexivity|reflexivity|reflexivity|apply T_semi; reflexivity]. }
   (* do a ; while ( b )   — no ';': the next statement starts a new line *)
-  apply (XP_cons _ _ (x_s4 ++ x_s5 ++ x_s7 ++ x_s8 ++ x_s9 ++ x_s10 ++ x_s6)).
+  apply (XP_cons _ _ (x_s4 ++ x_s5 ++ x_s7 ++ x_s8 ++ x_s9 ++ x_s10 ++ x_s11 ++ x_s12 ++ x_s6)).
   { eapply (XO_do_asi (kw tt_DoToken) _ _ (kw tt_WhileToken) (kw tt_OpenParenToken) [idb] vb (kw tt_CloseParenToken)); try reflexivity.
     - apply (XO_base _ (SExpr va)); [|intros; discriminate].
       apply (O_semi [ida] va sm); [split; [apply dE; vm_compute; reflexivity|reflexivity]|reflexivity].
     - apply dE. vm_compute. reflexivity. }
   (* l : while ( a ) throw b ; *)
-  apply (XP_cons _ _ (x_s5 ++ x_s7 ++ x_s8 ++ x_s9 ++ x_s10 ++ x_s6)).
+  apply (XP_cons _ _ (x_s5 ++ x_s7 ++ x_s8 ++ x_s9 ++ x_s10 ++ x_s11 ++ x_s12 ++ x_s6)).
   { apply XO_label; [repeat split; try reflexivity; vm_compute; discriminate|reflexivity| |reflexivity].
     eapply (XO_while (kw tt_WhileToken) (kw tt_OpenParenToken) [ida] va (kw tt_CloseParenToken)); try reflexivity.
     - apply dE. vm_compute. reflexivity.
     - apply (XO_throw (kw tt_ThrowToken) [idb] vb (sm :: _)); [reflexivity|apply dE; vm_compute; reflexivity| |apply T_semi; reflexivity].
       intros c xs' E. inversion E; subst. reflexivity. }
   (* { } *)
-  apply (XP_cons _ _ (x_s7 ++ x_s8 ++ x_s9 ++ x_s10 ++ x_s6)).
+  apply (XP_cons _ _ (x_s7 ++ x_s8 ++ x_s9 ++ x_s10 ++ x_s11 ++ x_s12 ++ x_s6)).
   { apply XO_block; [reflexivity|apply XL_end; reflexivity|reflexivity]. }
   (* debugger ; *)
-  apply (XP_cons _ _ (x_s8 ++ x_s9 ++ x_s10 ++ x_s6)).
+  apply (XP_cons _ _ (x_s8 ++ x_s9 ++ x_s10 ++ x_s11 ++ x_s12 ++ x_s6)).
   { apply (XO_debugger (kw tt_DebuggerToken) (sm :: _)); [reflexivity|apply T_semi; reflexivity]. }
   (* with ( a ) b ; *)
-  apply (XP_cons _ _ (x_s9 ++ x_s10 ++ x_s6)).
+  apply (XP_cons _ _ (x_s9 ++ x_s10 ++ x_s11 ++ x_s12 ++ x_s6)).
   { eapply (XO_with (kw tt_WithToken) (kw tt_OpenParenToken) [ida] va (kw tt_CloseParenToken)); try reflexivity.
     - apply dE. vm_compute. reflexivity.
     - apply (XO_base _ (SExpr vb)); [|intros; discriminate].
       apply (O_semi [idb] vb sm); [split; [apply dE; vm_compute; reflexivity|reflexivity]|reflexivity]. }
   (* try { } catch ( e ) { } finally { } *)
-  apply (XP_cons _ _ (x_s10 ++ x_s6)).
+  apply (XP_cons _ _ (x_s10 ++ x_s11 ++ x_s12 ++ x_s6)).
   { eapply (XO_try (kw tt_TryToken) (kw tt_OpenBraceToken)); try reflexivity.
     - apply XL_end. reflexivity.
     - apply (XC_param (kw tt_CatchToken) (kw tt_OpenParenToken) (idt 101) (kw tt_CloseParenToken) (kw tt_OpenBraceToken)); try reflexivity.
@@ -879,18 +930,25 @@ Proof.
     - apply (XF_some (kw tt_FinallyToken) (kw tt_OpenBraceToken)); try reflexivity. apply XL_end. reflexivity.
     - left. discriminate. }
   (* switch ( a ) { case b : a ; default : break ; } *)
-  apply (XP_cons _ _ x_s6).
+  apply (XP_cons _ _ (x_s11 ++ x_s12 ++ x_s6)).
   { eapply (XO_switch (kw tt_SwitchToken) (kw tt_OpenParenToken) [ida] va (kw tt_CloseParenToken) (kw tt_OpenBraceToken)); try reflexivity.
     - apply dE. vm_compute. reflexivity.
-    - apply (XK_case (kw tt_CaseToken) [idb] vb colon _ _ (kw tt_DefaultToken :: colon :: kw tt_BreakToken :: sm :: kw tt_CloseBraceToken :: x_s6));
+    - apply (XK_case (kw tt_CaseToken) [idb] vb colon _ _ (kw tt_DefaultToken :: colon :: kw tt_BreakToken :: sm :: kw tt_CloseBraceToken :: x_s11 ++ x_s12 ++ x_s6));
         [reflexivity|apply dE; vm_compute; reflexivity|reflexivity| |].
-      + apply (XS_cons _ (XExpr va) (kw tt_DefaultToken :: colon :: kw tt_BreakToken :: sm :: kw tt_CloseBraceToken :: x_s6)); [reflexivity| |apply XS_end; [discriminate|reflexivity]].
+      + apply (XS_cons _ (XExpr va) (kw tt_DefaultToken :: colon :: kw tt_BreakToken :: sm :: kw tt_CloseBraceToken :: x_s11 ++ x_s12 ++ x_s6)); [reflexivity| |apply XS_end; [discriminate|reflexivity]].
         apply (XO_base _ (SExpr va)); [|intros; discriminate].
         apply (O_semi [ida] va sm); [split; [apply dE; vm_compute; reflexivity|reflexivity]|reflexivity].
-      + apply (XK_default (kw tt_DefaultToken) colon _ _ (kw tt_CloseBraceToken :: x_s6)); [reflexivity|reflexivity| |apply XK_end; reflexivity|reflexivity].
-        apply (XS_cons _ (XBranch tt_BreakToken None) (kw tt_CloseBraceToken :: x_s6)); [reflexivity| |apply XS_end; [discriminate|reflexivity]].
+      + apply (XK_default (kw tt_DefaultToken) colon _ _ (kw tt_CloseBraceToken :: x_s11 ++ x_s12 ++ x_s6)); [reflexivity|reflexivity| |apply XK_end; reflexivity|reflexivity].
+        apply (XS_cons _ (XBranch tt_BreakToken None) (kw tt_CloseBraceToken :: x_s11 ++ x_s12 ++ x_s6)); [reflexivity| |apply XS_end; [discriminate|reflexivity]].
         apply (XO_branch (kw tt_BreakToken) (sm :: _)); [left; reflexivity| |apply T_semi; reflexivity].
         intros c r' E. inversion E; subst. right. repeat split; vm_compute; discriminate. }
+  (* let c = a ; const b = a ; *)
+  apply (XP_cons _ _ (x_s12 ++ x_s6)).
+  { apply (XO_let (kw tt_LetToken) _ _ (sm :: x_s12 ++ x_s6)); [reflexivity| |apply T_semi; reflexivity].
+    apply (V_one_init true idc (kw tt_EqToken) [ida] va); [reflexivity|reflexivity|apply dA_ident|reflexivity|reflexivity]. }
+  apply (XP_cons _ _ x_s6).
+  { apply (XO_const (kw tt_ConstToken) _ _ (sm :: x_s6)); [reflexivity| |reflexivity|apply T_semi; reflexivity].
+    apply (V_one_init true idb (kw tt_EqToken) [ida] va); [reflexivity|reflexivity|apply dA_ident|reflexivity|reflexivity]. }
   (* a = b *)
   apply (XP_cons _ _ []); [|apply XP_nil].
   apply (XO_base x_s6 (SExpr (EBinary tt_EqToken va vb))); [|intros; discriminate].
